@@ -27,7 +27,7 @@ reg("C06","recon","exploration","runtime oracle over real reconciliation plans (
     L1+"oracle: no two actions at equal or nested paths across alpha changes, beta changes and conflict roots; conflicts valid, two-sided, rooted at a first-disagreement path with inner changes beneath.",
     "trusts the harness's path-prefix test")
 reg("C07","recon","exploration","reference-model comparison (independent deep equality, filter, count, copy aliasing probe)",
-    "Diff/Apply round trip, Diff(t,t)=0, Equal vs independent comparison, four copy behaviours compared with a proto.Clone taken before mutating the original, synchronizable filter and Count vs an independent recursive filter, over all pairs of a 74-entry alphabet and seeded random deep pairs.",
+    "Diff/Apply round trip, Diff(t,t)=0, Equal vs independent comparison, four copy behaviours compared with a proto.Clone taken before mutating the original, synchronizable filter and Count vs an independent recursive filter, over all pairs of a 74-entry alphabet and seeded random deep pairs; Apply must leave its base and the change list it is given untouched (incl. later changes landing inside an earlier change's content).",
     "uses the verif-tagged export VerifSynchronizable")
 reg("C16","recon","exploration","reference-model comparison (lexical POSIX resolution) over an exhaustively enumerated target space",
     "every target over tokens {name, ., .., empty} up to length 6 (quick) / 8 (thorough) at link depths 0..3, plus random long and hostile targets: accepted implies the reference resolves inside the root; empty/absolute/over-long/colon/backslash targets rejected.",
@@ -94,7 +94,7 @@ reg("C36","procs","exploration","recording fake ssh/scp/docker executables + arg
     "random SSH and Docker URLs whose user/host/container start with '-' or look like options -> real url.Parse/EnsureValid -> real transports (Command, Copy, probing) with recorders on PATH: either the URL/transport is rejected and no recorder ran, or every recorded argv parses (getopt for ssh/scp, pflag rules for docker exec/cp/stop/start) to exactly the intended options with the URL components as operands. Both possible repairs (reject, or `--`) are accepted; partial repairs are reported.",
     "option grammars of ssh, scp and docker are modelled by the harness (scp checked against /usr/bin/scp)")
 reg("C43","procs","exploration","disk re-observation after the real Housekeep on a populated scratch data directory with a watched canary outside",
-    "agent versions, caches and staging roots with atime/mtime set to threshold +- {1 h, 1 d, 10 d}, symlinks pointing to a canary tree outside, unrelated files: after housekeeping.Housekeep() stale artifacts are gone, recent ones intact, the canary and everything outside the data directory untouched (content snapshot + inotify with a liveness control).",
+    "agent versions, caches and staging roots with atime/mtime set to threshold +- {1 h, 1 d, 10 d} and to time stamps in the future, symlinks pointing to a canary tree outside, unrelated files: after housekeeping.Housekeep() stale artifacts are gone, recent ones intact, the canary and everything outside the data directory untouched (content snapshot + inotify with a liveness control).",
     "times are never closer than 1 h to a threshold, so clock drift during the run is irrelevant")
 reg("C46","procs","exploration","child-process probe of the real ExecutableForPlatform over generated bundle layouts",
     "the monitor copies itself to <scratch>/bin and builds tar.gz bundles with distinct per-platform payloads in the executable's directory, in libexec, in both or in neither: the extracted bytes are the executable-directory bundle's entry when that bundle exists, else libexec's; unknown platforms and missing bundles are errors; the extracted file is executable.",
@@ -114,7 +114,7 @@ reg("C26","mux","exploration","reference-model comparison (slice-backed FIFO) ov
     "sequence enumeration copies ring.Buffer by its (start-up verified) memory layout to branch cheaply")
 
 reg("C19","rsyncx","exploration","round-trip oracle over an exhaustively enumerated input space of the real rsync engine",
-    "all base/target strings over {a,b} up to length 6 (quick) / 8 (thorough) x every block size x maximum data-operation sizes {1,2,3,5,default}: Patch(base, Deltify(target)) == target, every operation valid and within bounds, literal operations within the limit, no literal data for an unchanged target; streaming Deltify with short reads; random inputs up to 4 MiB with splices.",
+    "all base/target strings over {a,b} up to length 6 (quick) / 8 (thorough) x every block size x maximum data-operation sizes {1,2,3,5,default}: Patch(base, Deltify(target)) == target, every operation valid and within bounds, literal operations within the limit, no literal data for an unchanged target; streaming Deltify with short reads; random inputs up to 4 MiB with splices; both tiers: every base/target pair of length exactly 8 with block size 4 (the smallest shape over {a,b} with colliding weak checksums).",
     "exhaustive only within the stated bound")
 reg("C20","rsyncx","fault_enumeration","enumeration of a transmit failure at every operation index (transient and persistent) through Deltify and Transmit",
     "inputs built to reach all seven transmit sites; for every operation index k the transmitter fails once or from k on: either the sender returns an error or the receiver reconstructs exactly the target; same through rsync.Transmit with an encoding receiver feeding a real receiver. The run refuses a verdict if a site was never faulted.",
